@@ -35,7 +35,7 @@ for p in PROPS:
         "level_claimed": {
             "category": "other",
             "text": m.get("LEVEL_TEXT") or ("Bounded solver-based verification of the real code: " + m.get("EXPLANATION", "") + f" Bounds: quick {b.get('quick')}; thorough {b.get('thorough')}. Within the bounds every assertion is decided for all real-valued inputs by the SMT solver (unsat = holds); nothing is claimed outside them."),
-            "design_ref": m.get("DESIGN_REF", f"DESIGN.md section 4 ({p})"),
+            "design_ref": m.get("DESIGN_REF", f"DESIGN.md section 4 ({p}, plan) and section 10.4 (as built)"),
         },
         "level_note": m.get("LEVEL_NOTE") or ("Assumes: " + "; ".join(m.get("ASSUMPTIONS", [])) + ". Trusted: z3/nlsat, the symnp engine, numpy object-dtype loops; stubs listed in the evidence file are contracts."),
         "technique": m.get("TECHNIQUE", "symbolic execution of the real Python/numpy code on z3-backed proxies; per-path SMT queries (z3 nlsat, UF abstraction + axiom instances); counterexamples replayed on floats"),
